@@ -259,7 +259,7 @@ impl Prop for C07 {
                 f(Case::sn("pairs", vec![x as i64]));
             }
         }));
-        v.push(Scope::new("free-running", "supplementary (a sample of machine schedules, can only add violations): 6 free OS threads convert tagged and plain drawings at different scales 30 times each, compared with the sequential result", |f| {
+        v.push(Scope::new("free-running", "supplementary (a sample of machine schedules, can only add violations): 6 free OS threads, started together, convert tagged and plain drawings at different scales 120 times each, compared with the sequential result", |f| {
             for round in 0..4 {
                 f(Case::sn("free", vec![round]));
             }
@@ -423,12 +423,15 @@ impl Prop for C07 {
                 }
                 let inputs = Arc::new(inputs);
                 let mut hs = vec![];
+                let barrier = Arc::new(std::sync::Barrier::new(scales.len()));
                 for (t, sc) in scales.iter().enumerate() {
                     let inputs = inputs.clone();
                     let sc = *sc;
+                    let barrier = barrier.clone();
                     hs.push(std::thread::spawn(move || {
                         let mut outs = vec![];
-                        for _ in 0..30 {
+                        barrier.wait();
+                        for _ in 0..120 {
                             for i in inputs.iter() {
                                 outs.push(convert_in_process(i, &Sett::bare_scale(sc)));
                             }
